@@ -88,6 +88,19 @@ func genTrack(t *rapid.T) Track {
 		A:      rapid.StringMatching(`[!-~][ -~]{0,12}`).Draw(t, "a"),
 		Layout: rapid.SampledFrom([]int{5, 4, 6}).Draw(t, "layout"),
 	}
+	// a long A record (nothing bounds its text): around the sizes of the buffers a reader
+	// may collect a line in, filled with what would be fixes and date headers if a piece
+	// of the line were taken for a line of its own
+	if rapid.IntRange(0, 19).Draw(t, "longa") == 7 {
+		n := rapid.SampledFrom([]int{76, 255, 256, 1023, 4093, 4094, 4095, 4096, 4097, 4100, 8191, 8192, 8193, 16384, 32768}).Draw(t, "alen")
+		if rapid.IntRange(0, 4).Draw(t, "hugea") == 0 {
+			n = rapid.SampledFrom([]int{65533, 65534, 65535, 65536, 65537, 70000, 131073}).Draw(t, "alenhuge")
+		}
+		unit := rapid.SampledFrom([]string{"B1011125230000N00130000WA0012300456", "HFDTE010203", "B1011125230000N00130000WA0012300456HFDTE040506", "x"}).Draw(t, "aunit")
+		lead := strings.Repeat("Y", rapid.IntRange(0, 36).Draw(t, "alead"))
+		a := lead + strings.Repeat(unit, n/len(unit)+1)
+		tr.A = a[:n]
+	}
 	cur := float64(t0)
 	for i := 0; i < n; i++ {
 		if i > 0 {
@@ -225,6 +238,14 @@ func clip(s string) string {
 
 func classifyTrack(tr Track) ([]string, bool) {
 	cl := []string{}
+	switch {
+	case len(tr.A) >= 65535:
+		cl = append(cl, "a-record>=64KiB")
+	case len(tr.A) >= 4095:
+		cl = append(cl, "a-record>=4KiB")
+	case len(tr.A) > 13:
+		cl = append(cl, "a-record-long")
+	}
 	nt := false
 	crossesDay, before2000, boundary, clamped := false, false, false, false
 	for i, f := range tr.Fixes {
